@@ -81,13 +81,8 @@ theorem safe_verify (b : Block) : KeepSafe (fun s => (verify s b).1) := by
   intro s h
   show Safe (verify s b).1
   unfold verify
-  split
-  · exact h
-  · split
-    · exact h
-    · split
-      · exact h
-      · split <;> exact h
+  repeat' split
+  all_goals exact h
 
 theorem safe_markTxs (b : Block) : KeepSafe (fun s => markTxs s b) := by
   intro s h
@@ -211,23 +206,13 @@ def Guard (s : St) (b : Block) : Prop :=
 
 theorem verify_lookup (s : St) (b : Block) (h : Nat) : (verify s b).1.lookupHeight h = s.lookupHeight h := by
   unfold verify
-  split
-  · rfl
-  · split
-    · rfl
-    · split
-      · rfl
-      · split <;> rfl
+  repeat' split
+  all_goals rfl
 
 theorem verify_disk (s : St) (b : Block) : (verify s b).1.disk = s.disk := by
   unfold verify
-  split
-  · rfl
-  · split
-    · rfl
-    · split
-      · rfl
-      · split <;> rfl
+  repeat' split
+  all_goals rfl
 
 theorem addCore_guarded (fuel : Nat) (s : St) (b : Block) (hg : ¬ Guard s b) :
     (addCore fuel s b).1.disk = s.disk := by
